@@ -20,6 +20,7 @@ from ..concat import Concat
 from ..literal import Literal
 from .. import primitives
 from ..primitives import Primitive, Vpulse
+from vlsirtools import SpiceType
 
 
 def from_proto(pkg: vckt.Package) -> SimpleNamespace:
@@ -87,6 +88,7 @@ class ProtoImporter:
             desc=pmod.desc,
             port_list=port_list,
             paramtype=dict,  # FIXME: should these be stored in the serialization schema?
+            spicetype=SpiceType.from_schema(pmod.spicetype),
         )
         # Give it a (non-initializer) value for its `importpath`
         emod._importpath = [pmod.name.domain]
